@@ -44,6 +44,13 @@ def declare(spec):
                 spec.havoc_ghost(X, name)
             return X.ghost[name]
         return fn
+    spec.ghost_decls['nraised'] = TInt
+
+    def nraised(X):
+        if 'nraised' not in X.ghost:
+            spec.havoc_ghost(X, 'nraised')
+        return ZV(X.num(X.ghost['nraised']))
+    spec.define('nraised', nraised)
     spec.define('tlog', glist('tlog'))
     spec.define('wplog', glist('wplog'))
     spec.define('wp', lambda X, w, dt: ZV(WP.make([w, ZV(T._coerce(dt, z3.RealSort()))])))
@@ -155,7 +162,10 @@ def register_quit(spec):
           'on_quit-dispatched-once-first': (
               "implies((%s) != None, len(dlog()) == len(old(dlog())) + 1 and "
               "dlog()[len(old(dlog()))] == qe('on_quit', pack(), kw_empty()))" % eff),
-          'nothing-dispatched-without-a-world': 'implies((%s) == None, dlog() == old(dlog()))' % eff},
+          'nothing-dispatched-without-a-world': 'implies((%s) == None, dlog() == old(dlog()))' % eff,
+          # Quit is what ends the call only if delivering on_quit did not fail: an exception of a
+          # listener propagates instead (it is not replaced by Quit)
+          'no-exception-replaced-by-quit': 'nraised() == old(nraised())'},
           '$OtherException': {'from-a-listener-of-on_quit': '(%s) != None' % eff}})
     spec.define('default_loop', lambda X: ZV(z3.Const('default_loop', Loop.sort)))
     spec.spec_names['default_loop'] = ZV(z3.Const('default_loop', Loop.sort))
